@@ -492,7 +492,7 @@ func TestVerif_C11_Lockstep(t *testing.T) {
 		nsteps := rapid.IntRange(6, 16).Draw(rt, "nsteps")
 		reapWhileOpen, timeoutFired := false, false
 		for m.step = 1; m.step <= nsteps; m.step++ {
-			op := rapid.SampledFrom([]string{"create", "create", "open", "open", "open", "read", "read", "read", "close", "close", "double-close", "wait", "close-near-timeout", "reap", "reap", "reap"}).Draw(rt, "op")
+			op := rapid.SampledFrom([]string{"create", "create", "open", "open", "open", "read", "read", "read", "slow-read", "close", "close", "double-close", "wait", "close-near-timeout", "reap", "reap", "reap"}).Draw(rt, "op")
 			switch op {
 			case "create":
 				open := false
@@ -511,6 +511,16 @@ func TestVerif_C11_Lockstep(t *testing.T) {
 				if s, i := m.pickStream("stream"); s != nil {
 					want := rapid.SampledFrom([]int{1, 3, 100, 4096, 5000, 100000}).Draw(rt, "n")
 					m.read(s, i, want)
+				}
+			case "slow-read":
+				// keep one stream alive past the timeout by reading a byte every T/3:
+				// activity must postpone the force-close
+				if s, i := m.pickStream("stream"); s != nil && !s.released() {
+					for k := 0; k < 5 && !s.released(); k++ {
+						time.Sleep(c11T / 3)
+						m.read(s, i, 1)
+					}
+					m.rec.Label("slow-read")
 				}
 			case "close", "double-close":
 				if s, i := m.pickStream("stream"); s != nil {
@@ -741,6 +751,7 @@ func c11StressRound(t *testing.T, rec *vstat.Rec, seed int64) {
 				id := ids[len(ids)-1-rnd.Intn(min(len(ids), 3))]
 				mu.Unlock()
 				reapsBefore := reapAttempts.Load()
+				tOpen := time.Now()
 				_, rc, err := b.Store.Open(id)
 				if err != nil {
 					// reaped meanwhile or the reaper holds the lock: allowed
@@ -751,18 +762,28 @@ func c11StressRound(t *testing.T, rec *vstat.Rec, seed int64) {
 				buf := make([]byte, 1+rnd.Intn(9000))
 				var rerr error
 				stalled := false
+				lastStart := tOpen
 				for {
 					if p := rnd.Intn(40); p == 0 {
 						time.Sleep(T + 30*time.Millisecond) // stall past the timeout
 						stalled = true
 					} else if p < 6 {
 						time.Sleep(time.Duration(rnd.Intn(5)) * time.Millisecond)
+					} else if p < 9 {
+						time.Sleep(T / 3) // slow but alive
 					}
+					t0 := time.Now()
 					n, e := rc.Read(buf)
 					got = append(got, buf[:n]...)
 					if e != nil {
 						rerr = e
+						if errors.Is(e, snapshot.ErrSnapshotReaderTimeout) && time.Since(lastStart) < T {
+							violation("C11/premature-timeout", "stream of %s was force-closed %v after its last read started (timeout %v)", id, time.Since(lastStart), T)
+						}
 						break
+					}
+					if n > 0 {
+						lastStart = t0
 					}
 				}
 				rc.Close()
